@@ -17,13 +17,20 @@ Fld(n, t, as) == [name |-> n, type |-> t, args |-> as, dep |-> ""]
 Base == [query |-> "Query", mutation |-> "", subscription |-> "",
   types |-> <<
     [k |-> "object", name |-> "Query", ifaces |-> <<>>, fields |-> << Fld("a", Named("Int"), <<>>), Fld("l", ListOf(NN(Named("Int"))), <<Arg("x", Named("Int")), ArgD("y", ListOf(Named("In")), [k |-> "null"])>>),
-                                                              Fld("n", Named("Node"), <<>>), Fld("u", Named("U"), <<>>), Fld("e", NN(Named("E")), <<>>) >>],
+                                                              Fld("n", Named("Node"), <<>>), Fld("u", Named("U"), <<>>), Fld("e", NN(Named("E")), <<>>),
+                                                              \* defaults of every input kind (C12 / C15): string with quote, backslash and an astral character ("ASTRAL" is
+                                                              \* expanded by the harness), enum (internal value), list, input object that explicitly nulls a defaulted field, bool, float
+                                                              [Fld("d", Named("Int"), << ArgD("s", Named("String"), [k |-> "str", v |-> "ASTRAL"]), ArgD("ev", Named("E"), [k |-> "enumv", v |-> "px"]),
+                                                                                        ArgD("li", ListOf(Named("Int")), [k |-> "list", vs |-> <<[k |-> "int", v |-> "1"], [k |-> "int", v |-> "2"]>>]),
+                                                                                        ArgD("o", Named("In"), [k |-> "dict", fs |-> <<[key |-> "dflt", val |-> [k |-> "null"]], [key |-> "g", val |-> [k |-> "int", v |-> "2"]]>>]),
+                                                                                        ArgD("b", Named("Boolean"), [k |-> "bool", v |-> TRUE]), ArgD("fl", Named("Float"), [k |-> "float", v |-> "1.5"]) >>)
+                                                                 EXCEPT !.dep = "ASTRAL"] >>],
     [k |-> "interface", name |-> "Node", fields |-> << Fld("id", Named("ID"), <<>>) >>],
     [k |-> "object", name |-> "A", ifaces |-> <<"Node">>, fields |-> << Fld("id", Named("ID"), <<>>), Fld("s", Named("String"), <<>>) >>],
     [k |-> "object", name |-> "B", ifaces |-> <<>>, fields |-> << Fld("id", Named("ID"), <<>>) >>],
     [k |-> "union", name |-> "U", members |-> <<"A", "B">>],
     [k |-> "enum", name |-> "E", values |-> << [name |-> "X", dep |-> "", py |-> "px"], [name |-> "Y", dep |-> "", py |-> "py"] >>],
-    [k |-> "input", name |-> "In", fields |-> << Arg("f", Named("Int")), ArgD("g", NN(Named("Int")), [k |-> "int", v |-> "1"]) >>] >>,
+    [k |-> "input", name |-> "In", fields |-> << Arg("f", Named("Int")), ArgD("g", NN(Named("Int")), [k |-> "int", v |-> "1"]), ArgD("dflt", Named("Int"), [k |-> "int", v |-> "5"]) >>] >>,
   directives |-> << [name |-> "tag", locs |-> <<"FIELD", "QUERY">>, args |-> <<Arg("n", Named("Int"))>>] >>]
 
 \* wrapper variants of a named type up to depth 2
